@@ -5,6 +5,7 @@ mod checks;
 mod common;
 mod glue;
 mod journal;
+mod launcher;
 mod sched;
 mod sim;
 mod stream;
